@@ -346,9 +346,12 @@ def c03_outbound(rng, sid, nscen):
             else:
                 steps.append(BARRIER)
                 steps.append({"op": "abort", "k": k})
-                if rng.random() < 0.5:
-                    n += 1
-                    steps.append(api("o/t", rng.choice([1, 2]), "o%d" % n))      # published while offline
+                for _ in range(rng.choice([0, 1, 1, 2])):
+                    n += 1                                                        # published while offline: by the API or by
+                    if rng.random() < 0.5:                                        # an MQTT client with its own packet ids
+                        steps.append(api("o/t", rng.choice([1, 2]), "o%d" % n))
+                    else:
+                        steps.append(pub(50, "o/t", rng.choice([1, 2]), "o%d" % n))
                 k += 1
                 steps.append(connect(k, "sub", ver, clean=False, manualack=True, recvmax=rmax(), **exp))
                 steps.append(BARRIER)
